@@ -727,6 +727,30 @@ func loadedField(v ssa.Value) *ssa.FieldAddr {
 	return nil
 }
 
+// globalPrefix marks the rows of package-level variables among the field rows
+const globalPrefix = "var "
+
+func loadedGlobal(v ssa.Value) *ssa.Global {
+	for i := 0; i < 4; i++ {
+		switch x := v.(type) {
+		case *ssa.UnOp:
+			if x.Op == token.MUL {
+				if g, ok := x.X.(*ssa.Global); ok {
+					return g
+				}
+			}
+			return nil
+		case *ssa.ChangeType:
+			v = x.X
+		case *ssa.Slice:
+			v = x.X
+		default:
+			return nil
+		}
+	}
+	return nil
+}
+
 func (a *analysis) recordAccess(ff *fnFacts, ins ssa.Instruction, must set) {
 	emit := func(fa *ssa.FieldAddr, write bool, how string) {
 		tk, name, fv := fieldOf(fa)
@@ -737,10 +761,39 @@ func (a *analysis) recordAccess(ff *fnFacts, ins ssa.Instruction, must set) {
 		ctor := r == rootFresh || (r == rootRecv && ff.ctorOnly)
 		ff.accesses = append(ff.accesses, access{field: tk + "." + name, write: write, how: how, must: must.clone(), ctor: ctor, pos: ins.Pos()})
 	}
+	// package-level variables of the module (maps, slices, pointers, scalars …; struct variables are
+	// covered field by field above): named "var <pkg>.<name>", constructor phase = package initialisation
+	emitG := func(g *ssa.Global, write bool, how string) {
+		if g == nil || g.Pkg == nil {
+			return
+		}
+		pp := g.Pkg.Pkg.Path()
+		if pp != modPath && !strings.HasPrefix(pp, modPath+"/") {
+			return
+		}
+		pt, ok := g.Type().Underlying().(*types.Pointer)
+		if !ok || isSyncMutexType(pt.Elem()) {
+			return
+		}
+		if _, isStruct := pt.Elem().Underlying().(*types.Struct); isStruct {
+			return
+		}
+		if strings.HasPrefix(g.Name(), "init$") {
+			return // the compiler's package-initialisation guard
+		}
+		inInit := ff.fn.Signature.Recv() == nil && (ff.fn.Name() == "init" || strings.HasPrefix(ff.fn.Name(), "init#"))
+		ff.accesses = append(ff.accesses, access{field: globalPrefix + g.Pkg.Pkg.Name() + "." + g.Name(), write: write, how: how, must: must.clone(), ctor: inInit, pos: ins.Pos()})
+	}
 	switch x := ins.(type) {
 	case *ssa.Store:
+		if g, ok := x.Addr.(*ssa.Global); ok {
+			emitG(g, true, "store")
+		}
 		switch ad := x.Addr.(type) {
 		case *ssa.FieldAddr:
+			if g := loadedGlobal(ad.X); g != nil {
+				emitG(g, true, "deref-store")
+			}
 			emit(ad, true, "store")
 			// store into an object of a non-analysed type that is reached through a pointer held in an
 			// analysed field (r.address.Device = …): a write through that field
@@ -755,9 +808,17 @@ func (a *analysis) recordAccess(ff *fnFacts, ins ssa.Instruction, must set) {
 			} else if fa, ok := ad.X.(*ssa.FieldAddr); ok {
 				emit(fa, true, "elem-store")
 			}
+			if g := loadedGlobal(ad.X); g != nil {
+				emitG(g, true, "elem-store")
+			} else if g, ok := ad.X.(*ssa.Global); ok {
+				emitG(g, true, "elem-store")
+			}
 		}
 	case *ssa.UnOp:
 		if x.Op == token.MUL {
+			if g, ok := x.X.(*ssa.Global); ok {
+				emitG(g, false, "load")
+			}
 			if fa, ok := x.X.(*ssa.FieldAddr); ok {
 				// a load that only feeds an atomic op or a Lock call never appears here (those take the address)
 				emit(fa, false, "load")
@@ -767,11 +828,17 @@ func (a *analysis) recordAccess(ff *fnFacts, ins ssa.Instruction, must set) {
 		if fa := loadedField(x.Map); fa != nil {
 			emit(fa, true, "map-update")
 		}
+		if g := loadedGlobal(x.Map); g != nil {
+			emitG(g, true, "map-update")
+		}
 	case ssa.CallInstruction:
 		c := x.Common()
 		if b, ok := c.Value.(*ssa.Builtin); ok && b.Name() == "delete" && len(c.Args) > 0 {
 			if fa := loadedField(c.Args[0]); fa != nil {
 				emit(fa, true, "delete")
+			}
+			if g := loadedGlobal(c.Args[0]); g != nil {
+				emitG(g, true, "delete")
 			}
 			return
 		}
@@ -787,6 +854,9 @@ func (a *analysis) recordAccess(ff *fnFacts, ins ssa.Instruction, must set) {
 							name = name[:i] // drop type arguments of an instantiated generic method
 						}
 						emit(fa, true, "call:"+name)
+					}
+					if g := loadedGlobal(c.Args[0]); g != nil {
+						emitG(g, true, "call:"+sc.Name())
 					}
 				}
 			}
@@ -1353,6 +1423,19 @@ func main() {
 	}
 	w("]\n\n")
 	w("def sharedFields : List Nat := [%s]\n\n", intList(len(shared)))
+	var pvars, roVars []string
+	for _, f := range shared {
+		if strings.HasPrefix(f, globalPrefix) {
+			pvars = append(pvars, fmt.Sprint(fid[f]))
+		}
+	}
+	for _, f := range immutable {
+		if strings.HasPrefix(f, globalPrefix) {
+			roVars = append(roVars, strings.TrimPrefix(f, globalPrefix))
+		}
+	}
+	w("/-- the shared \"fields\" that are package-level variables of the module written after package initialisation\n    (process-wide state: shared by all devices, features and connections) -/\ndef packageVars : List Nat := [%s]\n", strings.Join(pvars, ", "))
+	w("-- package-level variables only read after initialisation: %s\n\n", strings.Join(roVars, ", "))
 	w("/-- a mutex held (in any mode) at every post-construction access of the field and exclusively at every write (the smallest such id) -/\ndef commonLock : Nat → Option Nat\n")
 	for i, f := range shared {
 		if c := common[f]; len(c) > 0 {
@@ -1416,6 +1499,7 @@ func main() {
 	js["unknown_lock_sites"] = unknown
 	js["unbalanced_unlocks"] = unbalanced
 	js["shared_fields"] = shared
+	js["package_vars_read_only"] = roVars
 	js["undisciplined"] = undisciplined
 	js["common_lock"] = common
 	js["immutable_after_construction"] = immutable
